@@ -1,7 +1,7 @@
 SPECIFICATION Spec
 CONSTANTS MaxRuns = 3
-  DataSets <- DataQuick
-  BranchLists <- BrThorough
+  DataSets <- DataMC
+  BranchLists <- BrQuick
   BufSizes = {1, 2, 3, 1000}
   Edges1 <- E1
   EdgesY <- EY
